@@ -87,10 +87,29 @@ class Reach:
                         else:
                             nxt.add(c)
                 frontier = nxt
-            if local_callers <= set(e["only_if_callers"]):
+            allowed = set(e["only_if_callers"])
+            # a private helper of the same impl whose only local callers are allowed callers is part of them (`filtered_schemas` split into a per-side helper)
+            for _round in range(2):
+                for c_path in sorted(local_callers - allowed):
+                    if not any(c_path.rsplit("::", 1)[0] == a.rsplit("::", 1)[0] for a in allowed):
+                        continue
+                    ids = [i for i in seen0 if nodes[i]["p"] == c_path]
+                    up, fr = set(), set(ids)
+                    for _ in range(4):
+                        nx = set()
+                        for t in fr:
+                            for c in callers_of.get(t, ()):
+                                if nodes[c]["l"]:
+                                    up.add(nodes[c]["p"])
+                                else:
+                                    nx.add(c)
+                        fr = nx
+                    if up and up <= allowed:
+                        allowed.add(c_path)
+            if local_callers <= allowed:
                 sup.add((e["caller"], e["callee"]))
             else:
-                stale.append({"edge": (e["caller"], e["callee"]), "unexpected_callers": sorted(local_callers - set(e["only_if_callers"]))})
+                stale.append({"edge": (e["caller"], e["callee"]), "unexpected_callers": sorted(local_callers - allowed)})
         seen = self.g.reach(roots, suppressed=sup) if sup else seen0
         res = (seen, self.g.local_paths(seen), sorted(sup), stale)
         self._cache[key] = res
